@@ -45,6 +45,7 @@ import OxiddModel.Ffi.DriverAbi
 import OxiddModel.Zbdd.DriverThreshold
 import OxiddModel.Mtbdd.DriverThreshold
 import OxiddModel.Tdd.DriverThreshold
+import OxiddModel.Dddmp.DriverHeader
 
 open OxiddModel
 
@@ -108,7 +109,8 @@ def protos : List (String × Proto) := [
   ("capi-abi", OxiddModel.Ffi.protoAbi),
   ("c14tz", OxiddModel.Zbdd.ThresholdDriver.proto),
   ("c14tm", OxiddModel.Mtbdd.ThresholdDriver.proto),
-  ("c14tt", OxiddModel.Tdd.ThresholdDriver.proto)
+  ("c14tt", OxiddModel.Tdd.ThresholdDriver.proto),
+  ("dddmp-header", OxiddModel.Dddmp.Hdr.protoHeader)
 ]
 
 def main (args : List String) : IO UInt32 := do
